@@ -16,7 +16,9 @@ EXPLANATION = (
     "of pool.join / rayon::join on every path, each closure running its child once; (ACC) reads/writes/setup of Par and Seq "
     "forward once to head and tail with the same accumulator, leaves forward to the system's accessor by matching name; (CHECK) "
     "in the dev profile Par::with intersects exactly {(old writes,new reads),(old writes,new writes),(old reads,new writes)} and "
-    "panics iff one of them intersects; with/new wire head/tail as documented. Overlap at run time is rayon's contract.")
+    "panics iff one of them intersects; with/new wire head/tail as documented; every other function of the crate that builds a two-child Par value (another constructor, a Default impl, a merge) is held to the "
+    "same table between exactly the two children it puts side by side; any other node type found in the crate (it implements RunWithPool and keeps children) owes the same accumulation and coverage. "
+    "Overlap at run time is rayon's contract.")
 ASSUMPTIONS = ["rayon::join / ThreadPool::join run both closures exactly once and return after both finished",
                "checked in the dev profile (debug assertions on), as the property states"]
 TRUSTED = ["rustc nightly MIR construction", "shred-facts driver", "shredlint analyses"]
